@@ -2,6 +2,13 @@
 //@serves C39
 use vstd::prelude::*;
 verus! {
+// std specifications not in vstd (A-std)
+pub assume_specification<T, F: FnOnce(T) -> bool> [Option::<T>::is_some_and] (o: Option<T>, f: F) -> (r: bool)
+    requires o.is_some() ==> f.requires((o.unwrap(),))
+    ensures o.is_none() ==> !r, o.is_some() ==> f.ensures((o.unwrap(),), r);
+pub assume_specification<T, F: FnOnce(T) -> bool> [Option::<T>::is_none_or] (o: Option<T>, f: F) -> (r: bool)
+    requires o.is_some() ==> f.requires((o.unwrap(),))
+    ensures o.is_none() ==> r, o.is_some() ==> f.ensures((o.unwrap(),), r);
 //@src node/src/peer_tracker.rs
 
 #[verifier::external_body]
@@ -22,6 +29,13 @@ impl PeerId {
 pub struct ConnectionId { pub v: u64 }
 #[derive(Clone, Copy)]
 pub struct Duration { pub ns: u64 }
+impl Duration {
+    // std::cmp::Ord::max / min on Duration (A-std)
+    #[verifier::external_body]
+    pub fn max(self, o: Duration) -> (r: Duration) ensures r.ns == (if self.ns >= o.ns { self.ns } else { o.ns }) { unimplemented!() }
+    #[verifier::external_body]
+    pub fn min(self, o: Duration) -> (r: Duration) ensures r.ns == (if self.ns <= o.ns { self.ns } else { o.ns }) { unimplemented!() }
+}
 #[derive(Clone, Copy)]
 pub struct Instant { pub t: u64 }
 impl Instant {
